@@ -405,6 +405,9 @@ class Prog:
             L.append("\tvar q G[[2]X]")
             L.append("\tt.Want(%d+2*int(unsafe.Sizeof(z))*1000)" % o["G.M"].id)
             m = rng.choice(["direct", "bound", "defer", "go"])
+            if m == "bound" and self.avoiding("C14-wrapper-receiver-pkg"):
+                # g.K[X] and sub/g.K[X] instantiated from one package would both create <pkg>.G[[2]X].M$bound (probe + avoid)
+                m = "direct"
             if m == "direct":
                 L.append("\tq.M()")
             elif m == "bound":
